@@ -33,3 +33,34 @@ def custom_template_text(variant=0):
 
 def custom_template_file(variant=0):
     return io.StringIO(custom_template_text(variant))
+
+
+# ------------------------------------------------------------------ the stock dictionary must stay the stock dictionary
+# Fingerprint of what the library's default template dictionary says, taken when this module is imported - i.e. before any
+# check has built a second dictionary, serializer or deserializer on the custom template.
+
+def _fingerprint():
+    import hashlib
+    from hippolyzer.lib.base.message.template_dict import DEFAULT_TEMPLATE_DICT
+    h = hashlib.sha256()
+    n = 0
+    for tmpl in DEFAULT_TEMPLATE_DICT:
+        n += 1
+        h.update(repr((tmpl.name, str(tmpl.frequency), tmpl.num, [(b.name, str(b.block_type), b.number,
+                                                                   [(v.name, str(v.type), v.size) for v in b.variables])
+                                                                  for b in tmpl.blocks])).encode())
+        h.update(repr((DEFAULT_TEMPLATE_DICT[tmpl.name] is tmpl,)).encode())      # the lookup by name leads to the same object
+    return n, h.hexdigest()
+
+
+STOCK_FINGERPRINT = _fingerprint()
+
+
+def check_stock_unchanged(ctx):
+    """Creating and using codec objects on another template must leave the stock dictionary (and so every stock codec
+    object in the process) exactly as it was."""
+    now = _fingerprint()
+    ctx.count("stock_dictionary_fingerprints_compared")
+    if now != STOCK_FINGERPRINT:
+        ctx.violation("stock-template-dictionary-changed", "building / using codec objects on a caller-supplied template changed "
+                      "the process-wide stock template dictionary", {"templates_before": STOCK_FINGERPRINT[0], "templates_now": now[0]})
